@@ -986,7 +986,11 @@ Message *Session::generate_sequence_reset(const unsigned newseqnum, const bool g
 	*msg << new new_seq_num(newseqnum);
 
 	if (gapfillflag)
+	{
+		// a gap fill stands for messages sent before: flagged like them, or the peer takes a repeated one for a number that is too low
 		*msg << new gap_fill_flag(true);
+		*msg->Header() << new poss_dup_flag(true) << new orig_sending_time;
+	}
 
 	return msg;
 }
